@@ -68,6 +68,94 @@ static void track_connect_next(struct track *track)''').replace('''	struct socka
                                      edit('libxcm/ctl/ctl.c', lambda s: re.sub(r'\b(client_receive|process_client|remove_client)\b', r'x_\1', s)),
                                      edit('libxcm/tp/tls/ctx_store.c', lambda s: re.sub(r'\b(cache_entry_create|cache_get|cache_put|get_credentials_hash|hash_item|load_ssl_ctx)\b', r'x_\1', s))],
  'rename_relay_helpers': lambda: edit('tools/xcmrelay/xrelay.c', lambda s: re.sub(r'\b(add_condition|del_condition|set_condition|xrelay_fwd_term|xfwd_handle_term|xfwd_receive|xfwd_send|xfwd_stop|xfwd_active)\b', r'x_\1', s)),
+ 'bsend_restructure': lambda: edit('libxcm/core/xcm.c', lambda s: s.replace("""	if (rc < 0) {
+	    if (errno != EAGAIN)
+		return -1;
+	    if (socket_wait(conn_s, XCM_SO_SENDABLE) < 0)
+		return -1;
+	} else
+	    sent += rc;
+    } while (sent < len);""", """	if (rc >= 0) {
+	    sent += rc;
+	    continue;
+	}
+	if (errno != EAGAIN || socket_wait(conn_s, XCM_SO_SENDABLE) < 0)
+	    return -1;
+    } while (sent < len);""")),
+ 'msg_bsend_while': lambda: edit('libxcm/core/xcm.c', lambda s: s.replace("""    for (;;) {
+	int s_rc = xcm_tp_socket_send(conn_s, buf, len);
+
+	if (s_rc < 0) {
+	    if (errno != EAGAIN)
+		return -1;
+	    if (socket_wait(conn_s, XCM_SO_SENDABLE) < 0)
+		return -1;
+	} else
+	    return 0;
+    }""", """    while (xcm_tp_socket_send(conn_s, buf, len) < 0) {
+	if (errno != EAGAIN)
+	    return -1;
+	if (socket_wait(conn_s, XCM_SO_SENDABLE) < 0)
+	    return -1;
+    }
+    return 0;""")),
+ 'xcm_send_early': lambda: edit('libxcm/core/xcm.c', lambda s: s.replace("""    if (conn_s->is_blocking) {
+	int rc;
+	if (xcm_tp_socket_is_bytestream(conn_s))
+	    rc = bytestream_bsend(conn_s, buf, len);
+	else
+	    rc = msg_bsend(conn_s, buf, len);
+
+	if (rc >= 0 && socket_finish(conn_s) < 0)
+	    return -1;
+
+	return rc;
+    } else
+	return xcm_tp_socket_send(conn_s, buf, len);""", """    if (!conn_s->is_blocking)
+	return xcm_tp_socket_send(conn_s, buf, len);
+
+    int rc = xcm_tp_socket_is_bytestream(conn_s) ?
+	bytestream_bsend(conn_s, buf, len) : msg_bsend(conn_s, buf, len);
+
+    if (rc < 0)
+	return rc;
+
+    if (socket_finish(conn_s) < 0)
+	return -1;
+
+    return rc;""")),
+ 'tcp_send_expand_macro': lambda: edit('libxcm/tp/tcp/xcm_tp_tcp.c', lambda s: s.replace("""    TP_GOTO_ON_INVALID_MSG_SIZE(len, MBUF_MSG_MAX, err);
+
+    TP_RET_ERR_IF(ts->conn.bad, ts->conn.badness_reason);
+
+    if (try_finish_send(s) < 0)
+	goto err;
+""", """    TP_GOTO_ON_INVALID_MSG_SIZE(len, MBUF_MSG_MAX, err);
+
+    if (ts->conn.bad) {
+	LOG_OP_FAILED(ts->conn.badness_reason);
+	errno = ts->conn.badness_reason;
+	goto err;
+    }
+
+    int flush_rc = try_finish_send(s);
+    if (flush_rc < 0)
+	goto err;
+""")),
+ 'receive_loop_form': lambda: edit('libxcm/core/xcm.c', lambda s: s.replace("""	for (;;) {
+	    if (socket_wait(conn_s, XCM_SO_RECEIVABLE) < 0)
+		return -1;
+	    int s_rc = xcm_tp_socket_receive(conn_s, buf, capacity);
+
+	    if (s_rc >= 0 || errno != EAGAIN)
+		return s_rc;
+	}""", """	int s_rc;
+	do {
+	    if (socket_wait(conn_s, XCM_SO_RECEIVABLE) < 0)
+		return -1;
+	    s_rc = xcm_tp_socket_receive(conn_s, buf, capacity);
+	} while (s_rc < 0 && errno == EAGAIN);
+	return s_rc;""")),
  'rename_set_verify': lambda: edit('libxcm/tp/tls/xcm_tp_btls.c', lambda s: re.sub(r'\bset_verify\b','apply_verify_policy',s)),
  'rename_finalize': lambda: edit('libxcm/tp/tls/xcm_tp_btls.c', lambda s: re.sub(r'\bfinalize_tls_conf\b','complete_tls_conf',s)),
 }
@@ -76,6 +164,7 @@ r=subprocess.run(["gcc","-fsyntax-only","-I",S+"/include","-I",S+"/common","-I",
 env=dict(os.environ, XCM_REPO=S, VERIF_NO_EVIDENCE="1")
 r=subprocess.run(["/verif/check"]+(sys.argv[2:] or ["all"]),env=env,capture_output=True,text=True,cwd="/verif")
 print(name,"rc=%d"%r.returncode)
+if r.returncode == 2: print(r.stderr[-3000:])
 for l in r.stdout.splitlines():
     if l.startswith(("VIOLATION","ANALYSIS-BROKEN","  violation")): print("   ",l[:230])
 if not os.environ.get("NEG_KEEP"): shutil.rmtree(S, ignore_errors=True)
